@@ -133,7 +133,9 @@ Fixpoint insert_by_pe (x : pe * value) (l : list (pe * value)) : list (pe * valu
               else x :: l
   end.
 
-(* canonical form: items of associative lists sorted by path element (stable) *)
+(* canonical form: items of associative lists sorted by path element (stable).  A group
+   of duplicate members counts as a single node, compared as a whole like an atomic value:
+   its members are left as they are (and the stable sort keeps their order). *)
 Fixpoint canon_fuel (fuel : nat) (s : schema) (tr : typeref) (v : value) : value :=
   match fuel with
   | O => v
@@ -141,8 +143,11 @@ Fixpoint canon_fuel (fuel : nat) (s : schema) (tr : typeref) (v : value) : value
       match kind_of s tr v with
       | KMap t m => VMap (map (fun kv => (fst kv, canon_fuel f s (field_type t (fst kv)) (snd kv))) m)
       | KList t l =>
-          let items := map (canon_fuel f s (list_elem t)) l in
-          let keyed := map (fun x => (match list_item_to_pe s t x with Some e => e | None => PEIndex 0 end, x)) items in
+          let pe_of x := match list_item_to_pe s t x with Some e => e | None => PEIndex 0 end in
+          let occurs e := List.length (filter (fun y => peeqb (pe_of y) e) l) in
+          let keyed := map (fun x => (pe_of x,
+                                      if Nat.leb 2 (occurs (pe_of x)) then x
+                                      else canon_fuel f s (list_elem t) x)) l in
           VList (map snd (fold_right insert_by_pe [] keyed))
       | _ => v
       end
